@@ -197,6 +197,97 @@ def opWrite (s : IOState) (msg : Msg) : IOState × WriteOut :=
       else ({ s with outBuf := buf }, .nothing)
     else (s, .single (encodeMsg msg))
 
+/-! ## concurrent writers (`writeMu` in `ioConn.Write`)
+
+`Write` takes `writeMu` first and holds it until the bytes have been handed to the stream
+(`defer t.writeMu.Unlock()`): framing AND the write to `rwc` are ONE atomic section.  Writers that
+call `Write` at the same time therefore take effect one after the other, in the order in which they
+win the lock; the stream receives their frames whole, in that order — whatever the stream does with
+the bytes of one call (it may forward them in pieces). -/
+
+/-- the `Write` calls of several goroutines, in the order in which they win `writeMu` -/
+def cwRun (s : IOState) : List Msg → IOState × List WriteOut
+  | [] => (s, [])
+  | m :: t =>
+    let r := opWrite s m
+    let r2 := cwRun r.1 t
+    (r2.1, r.2 :: r2.2)
+
+/-- the payload of the line a `Write` puts on the stream, if it writes -/
+def WriteOut.frame : WriteOut → Option JVal
+  | .single v => some v
+  | .array vs => some (.arr vs)
+  | _ => none
+
+/-- the lines on the stream after the calls -/
+def cwLines (outs : List WriteOut) : List JVal := outs.filterMap WriteOut.frame
+
+/-! ## `writeMu`: the stream under concurrent writers, piece by piece -/
+
+/-- writers on one connection: the lock holder (the pieces of its frame that the stream has not
+taken yet), the writers that have not won `writeMu` yet (their frames, cut in pieces as the stream
+will take them), the bytes on the stream -/
+structure CW where
+  holder : Option (List Bytes) := none
+  waiting : List (List Bytes) := []
+  out : Bytes := []
+
+/-- the scheduler's choices: the `k`-th waiting writer wins the lock (possible only while nobody
+holds it: `sync.Mutex`); the stream takes the next piece from the holder, which unlocks after its last -/
+inductive CWOp where
+  | acquire (k : Nat)
+  | piece
+
+def CW.step (s : CW) : CWOp → CW
+  | .acquire k =>
+    match s.holder, s.waiting.drop k with
+    | none, w :: b => { s with holder := some w, waiting := s.waiting.take k ++ b }
+    | _, _ => s
+  | .piece =>
+    match s.holder with
+    | some (p :: rest) => { s with out := s.out ++ p, holder := if rest = [] then none else some rest }
+    | some [] => { s with holder := none }
+    | none => s
+
+def CW.run (s : CW) (ops : List CWOp) : CW := ops.foldl CW.step s
+
+/-- the stream holds whole frames, in some order, then a prefix of the holder's frame; frames done, the
+holder's and the waiting ones are the frames of the writers -/
+def CW.Inv (frames : List Bytes) (s : CW) : Prop :=
+  ∃ (done : List Bytes) (pre : Bytes), s.out = done.flatten ++ pre ∧ (s.holder = none → pre = []) ∧
+    (done ++ (match s.holder with | none => [] | some r => [pre ++ r.flatten]) ++ s.waiting.map List.flatten).Perm frames
+
+/-! ## `LoggingTransport` (`loggingConn`, `mcp/transport.go`)
+
+A connection around a connection: `Read` and `Write` call the delegate and hand its result on as it is;
+beside that they write one line to the log — `read: ` / `write: ` and `EncodeMessage` of the message, or
+`read error: …` / `write error: …`. -/
+
+inductive LogEntry where
+  | read (v : JVal) | readErr | write (v : JVal) | writeErr
+deriving DecidableEq, Repr, Inhabited
+
+/-- `loggingConn.Read` on what the delegate's `Read` returned -/
+def logRead (o : ReadOut) : ReadOut × LogEntry :=
+  (o, match o with | .msg m => .read (encodeMsg m) | .err _ => .readErr)
+
+/-- `loggingConn.Write` on what the delegate's `Write` did (a panic of the delegate passes through: no line) -/
+def logWrite (m : Msg) (o : WriteOut) : WriteOut × Option LogEntry :=
+  (o, if o = .panic then none else some (.write (encodeMsg m)))
+
+/-- what passes through a logging connection -/
+inductive LogEv where
+  | read (o : ReadOut)
+  | write (m : Msg) (o : WriteOut)
+deriving Repr, Inhabited
+
+def logOf : List LogEv → List LogEntry
+  | [] => []
+  | .read o :: t => (logRead o).2 :: logOf t
+  | .write m o :: t => match (logWrite m o).2 with
+    | some e => e :: logOf t
+    | none => logOf t
+
 /-! ## The abstract specification of batch replies (what C02 asks for)
 
 Per accepted batch: one slot per CALL of the batch, in batch order, holding the call's id and its
